@@ -9,24 +9,20 @@ PROP = Property(
     "C09", "proof",
     kani=[KaniUnit(
         crate="mithril-stm",
+        cbmc_args=["--unwindset", "memcmp.0:34"],  # Vec<usize> / Vec<u8> equality of up to 4 indices compiles to memcmp over up to 32 bytes
         attach=[(CM, "contracts/mithril-stm/c09_merkle.rs", "verif_c09")],
         anchors=[(CM, "verify_leaves_membership_from_batch_path", None), (TR, "compute_merkle_tree_batch_path", None), (TR, "new", "MerkleTree<D, L>")],
-        harnesses=[
-            H("c09_completeness_n1", "bounded", COMP, FN, bound="n = 1 leaf", replay="none", timeout=900),
-            H("c09_completeness_n2", "bounded", COMP, FN, bound="n = 2 leaves, all 3 selections, symbolic leaf bytes", replay="none", timeout=900),
-            H("c09_completeness_n3", "bounded", COMP, FN, bound="n = 3 leaves, all 7 selections", replay="none", timeout=900),
-            H("c09_completeness_n4", "bounded", COMP, FN, bound="n = 4 leaves, all 15 selections", replay="none", timeout=1500, tier="thorough"),
-            H("c09_soundness_n2_k1", "bounded", SOUND, FN, bound="n = 2, 1 claimed leaf, <= 2 path values, index < 64", replay="none", timeout=900),
-            H("c09_soundness_n3_k1", "bounded", SOUND, FN, bound="n = 3, 1 claimed leaf, <= 3 path values", replay="none", timeout=900),
-            H("c09_soundness_n3_k2", "bounded", SOUND, FN, bound="n = 3, 2 claimed leaves, <= 3 path values", replay="none", timeout=1500),
-            H("c09_soundness_n4_k2", "bounded", SOUND, FN, bound="n = 4, 2 claimed leaves, <= 3 path values", replay="none", timeout=3000, tier="thorough"),
-        ])],
+        harnesses=[H("c09_completeness_n%d_m%d" % sh, "bounded", COMP, FN, bound="n = %d leaves (symbolic bytes), selection mask %d" % sh, replay="none", timeout=900,
+                     tier=("thorough" if sh[0] == 4 else "quick")) for sh in [(1, 1), (2, 1), (2, 2), (2, 3), (3, 1), (3, 2), (3, 3), (3, 4), (3, 5), (3, 6), (3, 7), (4, 5), (4, 10), (4, 15)]]
+        + [H("c09_soundness_n%d_k%d_v%d" % sh, "bounded", SOUND, FN, bound="n = %d leaves, %d claimed leaves, %d path values (all symbolic), wire indices < 8" % sh, replay="none", timeout=900,
+             tier=("thorough" if sh in [(3, 2, 2), (3, 1, 3)] else "quick")) for sh in [(2, 1, 0), (2, 1, 1), (2, 1, 2), (2, 2, 0), (2, 2, 1), (3, 1, 1), (3, 1, 2), (3, 1, 3), (3, 2, 0), (3, 2, 1), (3, 2, 2)]]
+        )],
     verus=[VerusUnit("heap_index", "verus/C09/heap_index.tmpl.rs",
                      "extracted parent/left_child/right_child/sibling: parent(left_child(i)) == parent(right_child(i)) == i, sibling involutive, siblings share their parent, parity <=> left/right child, no overflow below usize::MAX/2; leaf layout lemma",
                      ["merkle_tree::parent", "merkle_tree::left_child", "merkle_tree::right_child", "merkle_tree::sibling"])],
     assumptions=[
         "hash = ideal (collision-free, memoised) function: the real generic tree/commitment code is executed at this Digest implementation; Blake2b itself is not verified",
-        "tree size bounded (n <= 3 quick, n <= 4 thorough), claimed leaves <= 2, path values <= 3, wire indices < 64 (overflow of `i + next_power_of_two - 1` for huge indices is a C05 matter)",
+        "tree size bounded (n <= 3 quick, n = 4 thorough), one harness per concrete shape (selection resp. number of claimed leaves / path values), contents symbolic; wire indices < 8 (overflow of `i + next_power_of_two - 1` for huge indices is a C05 matter)",
         "generic Merkle tree / nested map in internal/mithril-merkle-tree delegate to ckb-merkle-mountain-range (external algorithm): NOT under contract here; MKProof/MKMapProof linking rules are not decided in this unit",
         "to_cbor_bytes (error decoration only) stubbed",
     ],
